@@ -15,11 +15,11 @@ import (
 // sites in the package hold it). The table is the rule; the discovery mode (VERIF_LOCKSET_DISCOVER=1) only prints
 // candidates and is never used to decide.
 type lockTable struct {
-	rule      string
-	pkg       string
-	typ       string   // type name suffix, e.g. "http2.ClientConn"
-	mutex     string   // mutex field name
-	fields    []string // protected fields
+	rule        string
+	pkg         string
+	typ         string   // type name suffix, e.g. "http2.ClientConn"
+	mutex       string   // mutex field name
+	fields      []string // protected fields
 	consequence string
 }
 
